@@ -818,16 +818,24 @@ func (x *Exec) applyContract(e *ast.CallExpr, st *State, fn *types.Func, c *Cont
 	for k, v := range env {
 		oldEnv[k] = v
 	}
-	x.applyModifies(st, c, fn, env, args)
+	x.applyModifiesSel(st, c, fn, env, args, resN, false)
 	// results
 	var resVals []Value
 	for i := range resN {
 		rt := sig.Results().At(i).Type()
+		if _, isPtr := rt.Underlying().(*types.Pointer); isPtr && i == 0 && c.Opts["fresh_result"] == "true" {
+			// the callee returns a newly allocated object
+			p := x.alloc(st, resN[i])
+			x.zeroGhosts(st, p)
+			resVals = append(resVals, Sc{p})
+			continue
+		}
 		resVals = append(resVals, x.fresh(st, rt, resN[i]))
 	}
 	for i, n := range resN {
 		env[n] = cbind{resVals[i], sig.Results().At(i).Type()}
 	}
+	x.applyModifiesSel(st, c, fn, env, args, resN, true)
 	post := &cctx{x: x, st: st, old: pre, env: env, oldEnv: oldEnv, callee: c, resNames: resN}
 	for _, en := range c.Ensures {
 		if strings.Contains(en.Src, "now(") {
@@ -892,9 +900,27 @@ func (x *Exec) packVariadic(st *State, sliceT types.Type, vals []Value) Value {
 }
 
 // applyModifies havocs what the callee's frame allows it to change.
+// modOnResult: the modifies entry speaks about a result of the callee (e.g.
+// result.#g): it is applied once the results exist.
+func modOnResult(mod string, resN []string) bool {
+	for _, r := range resN {
+		if strings.HasPrefix(mod, r+".") || strings.HasPrefix(mod, r+"@") {
+			return true
+		}
+	}
+	return false
+}
+
 func (x *Exec) applyModifies(st *State, c *Contract, fn *types.Func, env map[string]cbind, args []Value) {
+	x.applyModifiesSel(st, c, fn, env, args, nil, false)
+}
+
+func (x *Exec) applyModifiesSel(st *State, c *Contract, fn *types.Func, env map[string]cbind, args []Value, resN []string, onResults bool) {
 	for _, mod := range c.Modifies {
 		mod = strings.TrimSpace(mod)
+		if modOnResult(mod, resN) != onResults {
+			continue
+		}
 		switch {
 		case mod == "":
 		case mod == "*":
